@@ -12,6 +12,17 @@ fn main() {
 			let a = rt.block_on(watchexec_cli::verif::args_from(vec!["watchexec".into(), "true".into()]));
 			emit(&json!({"ok": a.is_ok()}));
 		}
+		"env-summary" => {
+			// the CLI's glue between the path summary and the command's environment
+			for case in read_cases(&args[2]) {
+				let events: Vec<watchexec_events::Event> =
+					case["events"].as_array().unwrap().iter().map(wxharness::evgen::mk_event).collect();
+				let mut v: Vec<(String, String)> = watchexec_cli::verif::emits_to_environment(&events)
+					.map(|e| (e.key, e.value.to_string_lossy().into_owned())).collect();
+				v.sort();
+				emit(&json!({"env": v}));
+			}
+		}
 		"simple-format" => {
 			for case in read_cases(&args[2]) {
 				let events: Vec<watchexec_events::Event> =
